@@ -25,12 +25,13 @@ CLAIMED["C02"] = {
     "text": "Theorems: the k-th row of a plain touch is the start row transformed by the first k changes of the notation "
             "read cyclically from the start index (all k, all start indices incl. negative, any start row); Plain Hunt "
             "equals the notation x.1n / n.1 for every n and length; Grandsire/Stedman facts for every supported stage by "
-            "kernel computation. Model of convert_pn/valid_pn/generators compared with the implementation on grammar-"
+            "kernel computation; convert_pn on EVERY string of the documented grammar (tokens, optional dots around a "
+            "cross, & / + markers, comma-joined blocks) is the declarative expansion (C02_grammar_single_block, "
+            "C02_grammar_comma_blocks). Model of convert_pn/valid_pn/generators compared with the implementation on grammar-"
             "directed, exhaustive-short and malformed strings every run; rows also compared with an independent "
             "reference interpreter.",
-    "design_ref": "DESIGN.md section 3, C02", "note": TB + " The grammar->changes theorem for convert_pn is not yet "
-            "proved in Coq (convert_pn is tied by correspondence + the token-level oracle only).",
-    "technique": "Coq proof (induction over rows; vm_compute over the finite set of stages) + correspondence",
+    "design_ref": "DESIGN.md section 3, C02", "note": TB + " Blanks inside a notation string are covered by the tie only.",
+    "technique": "Coq proof (induction over rows and over token sequences; vm_compute over the finite set of stages) + correspondence",
 }
 CLAIMED["C04"] = {
     "text": "Theorem pn_step_spec: the complete decision rule of one generator step (call fires exactly where defined, "
@@ -44,8 +45,10 @@ CLAIMED["C04"] = {
 CLAIMED["C05"] = {
     "text": "Theorem: after ANY history of operations, reset returns exactly the generator the constructor built, so the "
             "second touch's rows equal a fresh generator's (all generator kinds); C05_refuted_pre_fix exhibits the "
-            "violation of the tree before the fix commit. Model compared with the implementation on histories with a "
-            "reset at every row offset; oracle: a freshly constructed generator.",
+            "violation of the tree before the fix commit; through the Bot, the turnover that starts the method resets the "
+            "generator before the first method row is generated (C05_bot_method_start_like_fresh_launch). Model compared "
+            "with the implementation on histories with a reset at every row offset and on whole-Bot sessions whose first "
+            "touch is cut anywhere and restarted by Go; oracle: a freshly constructed generator / textbook interpreter.",
     "design_ref": "DESIGN.md section 3, C05", "note": TB,
     "technique": "Coq proof (structural: reset state = constructor state) + correspondence",
 }
